@@ -67,6 +67,17 @@ func c05GenValid(w *World, pr *Proto, p *Peer) (model.DatagramType, string) {
 			return cmd
 		}
 		ids := []uint{uint(w.T.Choose(3, "sel-id")), 0, 0}
+		if w.T.Bool(1, 4, "wide-selector") {
+			// a selector that sets every member it has (also those whose namesake in the stored
+			// items is a list) against whatever is stored
+			kind := []string{"partial", "delete"}[w.T.Choose(2, "wide-kind")]
+			if sel := w.GenSelectorWide(info, ids); sel != nil {
+				cmd.Function = util.Ptr(fn)
+				cmd.Filter = []model.FilterType{*MakeFilter(info, kind, sel, nil)}
+				w.Probe("c05-wide-selector")
+				return cmd
+			}
+		}
 		switch w.T.Choose(7, "filter-shape") {
 		case 1:
 			cmd.Function = util.Ptr(fn)
